@@ -121,6 +121,15 @@ func VerifDir() string {
 	return "/verif"
 }
 
+// OutDir is where evidence/ and replay/ are written (VERIF_OUT overrides, for
+// runs against scratch trees that must not touch the committed evidence).
+func OutDir() string {
+	if d := os.Getenv("VERIF_OUT"); d != "" {
+		return d
+	}
+	return VerifDir()
+}
+
 func loadKnown() (map[string]KnownFinding, error) {
 	b, err := os.ReadFile(filepath.Join(VerifDir(), "known_findings.json"))
 	if err != nil {
@@ -175,10 +184,10 @@ func (c *Ctx) Finish() int {
 		}
 	}
 	sort.Slice(viol, func(i, j int) bool { return viol[i].Key < viol[j].Key })
-	os.MkdirAll(filepath.Join(VerifDir(), "replay"), 0o755)
+	os.MkdirAll(filepath.Join(OutDir(), "replay"), 0o755)
 	for _, o := range viol {
 		h := sha1.Sum([]byte(o.Key))
-		rp := filepath.Join(VerifDir(), "replay", c.Prop+"-"+hex.EncodeToString(h[:6])+".json")
+		rp := filepath.Join(OutDir(), "replay", c.Prop+"-"+hex.EncodeToString(h[:6])+".json")
 		b, _ := json.MarshalIndent(map[string]any{"property": c.Prop, "obligation": o}, "", " ")
 		os.WriteFile(rp, b, 0o644)
 		fmt.Printf("  violated %s at %s: %s\n", o.Key, o.Site, o.Detail)
@@ -272,7 +281,7 @@ func (c *Ctx) writeEvidence(nd, nk, nv int) {
 		"violations":  nv,
 	}
 	b, _ := json.MarshalIndent(ev, "", " ")
-	dir := filepath.Join(VerifDir(), "evidence")
+	dir := filepath.Join(OutDir(), "evidence")
 	os.MkdirAll(dir, 0o755)
 	os.WriteFile(filepath.Join(dir, c.Prop+".json"), b, 0o644)
 }
